@@ -85,6 +85,8 @@ theorem noTV_raw (env : Env) (orc : Nat → Val → Raw) (horc : ∀ k v, orc k 
     split; · simp
     split; · simp
     split; · simp
+    split; · simp
+    split; · simp
     split
     · simp
     · split
